@@ -135,7 +135,8 @@ Definition uv_write2 (nbufs : nat) (connecting empty_queue : bool) (l : ledger) 
     else if empty_queue then
       let '(s, w) := uv_write_step (Nat.eqb nbufs 1) w in  (* uv__write *)
       match s with
-      | WDone st => mkO (Ret RcOk) (if big then add_mem (-1) l else l) (Some st) w   (* uv__write_req_finish frees bufs *)
+      | WDone RcOk => mkO (Ret RcOk) (if big then add_mem (-1) l else l) (Some RcOk) w   (* uv__write_req_finish frees bufs *)
+      | WDone st => mkO (Ret RcOk) l (Some st) w      (* on error bufs are kept until the callback *)
       | WQueued => mkO (Ret RcOk) l None w
       end
     else mkO (Ret RcOk) l None w.
